@@ -313,6 +313,12 @@ inline void crash_handler(int sig) {
   }
   ::_exit(40 + (sig & 15));
 }
+#ifndef VF_LIBFUZZER
+// Sanitizer flavours: a report must end in abort() (not _exit) so that crash_handler saves the tape of the running case and the driver
+// gets a replayable violation instead of an unexplained worker exit.  (Unused in the unsanitized flavours.)
+extern "C" __attribute__((used)) const char* __asan_default_options() { return "abort_on_error=1:detect_leaks=0:allocator_may_return_null=1"; }
+extern "C" __attribute__((used)) const char* __ubsan_default_options() { return "abort_on_error=1:print_stacktrace=1"; }
+#endif
 inline void install_crash_handlers() {
   for (int sg : { SIGSEGV, SIGABRT, SIGFPE, SIGBUS, SIGILL }) std::signal(sg, crash_handler);
 }
